@@ -345,9 +345,28 @@ def group_cases(rng, n):
     lines = []
     for _ in range(n):
         nb = rng.randrange(2, 8)
-        mode = rng.randrange(3)
+        mode = rng.randrange(4)
         v = [0] * (nb * nb)
         part = [rng.randrange(3) for _ in range(nb)]
+        if mode == 3:
+            # a forest of minimal-distance edges over shuffled indexes: the transitive graph
+            # must be followed through objects discovered in any order
+            order = list(range(nb))
+            rng.shuffle(order)
+            edges = set()
+            for a in range(1, nb):
+                if rng.random() < 0.8:
+                    b = rng.randrange(a) if rng.random() < 0.5 else a - 1
+                    edges.add((order[a], order[b]))
+            for i in range(nb):
+                for j in range(nb):
+                    v[i * nb + j] = 0 if i == j else (1 if (i, j) in edges or (j, i) in edges else rng.choice([5, 9]))
+            for i in range(nb):
+                for j in range(i):
+                    if v[i * nb + j] != 1:
+                        v[i * nb + j] = v[j * nb + i]
+            lines.append("groups %d %s" % (nb, " ".join(map(str, v))))
+            continue
         for i in range(nb):
             for j in range(nb):
                 if mode == 0:
@@ -900,6 +919,15 @@ class Oracle:
                         raise Violation("spec:groups-connected", "group %d of %r is not connected by minimal distances (matrix %r)" % (g, ids, v))
                 if any(x > ng for x in ids):
                     raise Violation("spec:groups-ids", "group id beyond %d in %r" % (ng, ids))
+                # "objects in a transitive graph of minimal values": on a matrix that passes the
+                # check (symmetric, diagonal strictly minimal) no minimal edge leaves a group
+                if int(m.group(1)) == 0:
+                    for a in range(nb):
+                        for b in range(nb):
+                            if a != b and v[a * nb + b] == mn and ids[a] and ids[b] != ids[a]:
+                                raise Violation("find-groups-misses-transitive-member",
+                                                "hwloc__find_groups_by_min_distance: object %d (group %d) is at the minimal distance %d of object %d, which is left in group %d: ids=%r" % (
+                                                    a, ids[a], mn, b, ids[b], ids))
 
 
 def run_oracle(k, c_out):
